@@ -9,7 +9,7 @@ import (
 
 func c19Gen(g *Gen) {
 	r := g.Rng
-	n := g.N(1200, 9000)
+	n := g.N(900, 9000)
 	for i := 0; i < n; i++ {
 		switch x := r.Intn(100); {
 		case x < 22:
